@@ -10,6 +10,8 @@ structure St where
   -- model state
   ecx : List Nat := []
   ecj : List Nat := []
+  pos : Nat := 0        -- position of the journal handle
+  session : Nat := 1
   orig : List Nat := []
   sdx : List Nat := []
   idx : List Nat := []
@@ -67,7 +69,7 @@ def step (st : St) (n : Nat) (ln : Line) : St × List String :=
   | "config" => ({ st with os := tokNat (a.getD 0 "4") }, ["COV config"])
   | "reset" =>
     let bs := tokBytes (a.getD 0 "-")
-    ({ st with ecx := bs, ecj := [], orig := bs, iecx := bs, iecj := [] },
+    ({ st with ecx := bs, ecj := [], pos := 0, session := 1, orig := bs, iecx := bs, iecj := [] },
       diff n ln ["ok"] ++ [if wellFormed st.os bs then "COV reset.wellformed" else "COV reset.malformed",
                            if bs.isEmpty then "COV reset.empty" else "COV reset.nonempty"])
   | "find" =>
@@ -79,18 +81,28 @@ def step (st : St) (n : Nat) (ln : Line) : St × List String :=
           | some (_, s) => if isDeleted s then "COV find.deleted" else "COV find.live"])
   | "del" =>
     let key := tokNat (a.getD 0 "")
-    let (ecx', ecj') := deleteEcx st.os st.ecx st.ecj key
+    let v := Vol.delete st.os ⟨st.ecx, st.ecj, st.pos⟩ key
+    let (ecx', ecj') := (v.ecx, v.ecj)
     let model := ["ok", diffTok st.ecx ecx', diffTok st.ecj ecj']
     let iok := o.getD 0 "" == "ok"
     let iecx' := applyDiffTok st.iecx (o.getD 1 "")
     let iecj' := applyDiffTok st.iecj (o.getD 2 "")
     let hit := (search st.os st.ecx key)
-    ({ st with ecx := ecx', ecj := ecj', iecx := iecx', iecj := iecj' },
+    ({ st with ecx := ecx', ecj := ecj', pos := v.pos, iecx := iecx', iecj := iecj' },
       diff n ln model ++ judgeOut n (delJudge st.os st.iecx st.iecj key iok iecx' iecj') (a.getD 0 "")
       ++ [match hit with
           | none => "COV del.absent"
           | some 0 => "COV del.first-entry"
-          | some _ => "COV del.later-entry"])
+          | some _ => "COV del.later-entry"]
+      ++ (if hit.isSome ∧ st.session > 1 ∧ !st.ecj.isEmpty then ["COV del.journalled-after-reopen"] else []))
+  | "reopen" =>
+    let v := Vol.reopen ⟨st.ecx, st.ecj, st.pos⟩
+    let iecj' := applyDiffTok st.iecj (o.getD 1 "")
+    -- judge: a new session finds the journal of the previous ones untouched
+    let j := if iecj' = st.iecj then none else some "NewEcVolume/journal-changed-by-reopen"
+    ({ st with pos := v.pos, session := st.session + 1, iecj := iecj' },
+      diff n ln ["ok", diffTok st.ecj st.ecj] ++ judgeOut n j ""
+      ++ [if st.ecj.isEmpty then "COV reopen.empty-journal" else "COV reopen.with-journal"])
   | "idx" =>
     let model := ["ok", hexOfNats (idxFromEc st.os st.ecx st.ecj)]
     (st, diff n ln model ++ judgeOut n (idxJudge st.os st.iecx (o.getD 0 "" == "ok") (tokBytes (o.getD 1 "-"))) ""
